@@ -21,13 +21,13 @@
 (*          Variant = "design": the arguments that implement L.                                    *)
 (*          Variant = "impl"  : the arguments at the pinned commit.  Named deviations:             *)
 (*             D18  CS2C8U8S        random_primer_read = barcode mate (CELSeq2.py:107): line 582   *)
-(*                                  REPLACES the capture slice of that mate, R2 is emitted from 6   *)
+(*                                  REPLACES the capture slice of that mate, R2 is emitted from 6  *)
 (*                                  (inside the UMI) and rS holds UMI bases.                       *)
-(*             D20  DamID2_8bp_noCA capture start umiLength+barcodeLength-1 (DamID.py:86-88, copied *)
-(*                                  from DamID2 whose barcodes contain the CA overhang): the last   *)
-(*                                  barcode base is emitted as first insert base.                  *)
-(*             D21  DamID2andT_3u4b3u6b  when a pair matches BOTH whitelists, DamID.py:344-346 returns  *)
-(*                                  the loop variable (ONE TaggedRecord) instead of the list of records.*)
+(*             D201 DamID2_8bp_noCA capture start umiLength+barcodeLength-1 (DamID.py:86-88,       *)
+(*                                  copied from DamID2 whose barcodes contain the CA overhang):    *)
+(*                                  the last barcode base is emitted as first insert base.         *)
+(*             D202 DamID2andT_3u4b3u6b  a pair matching BOTH whitelists: DamID.py:344-346 returns *)
+(*                                  the loop variable (ONE TaggedRecord) instead of the list.      *)
 (* Mates are 1-based here (code: 0-based), positions 0-based half-open like Python slices.         *)
 EXTENDS Integers, Sequences, FiniteSets, TLC, Util, Json
 
@@ -200,7 +200,7 @@ StrategyVerdict(s, R, Q, out, Enc(_), Comp(_), IsT(_)) ==
 (*   kind "scat" : DamID2_SCA(first_umi_len fu, first_bc_len fb, second_umi_len su, second_barcode_len sb)*)
 (*   kind "illu" : IlluminaBaseDemultiplexer                                                          *)
 (*   post        : content dependent step after the base class ("none","clip1","trim2","skipT1",       *)
-(*                 "skipT1_last" = skipT1, then only the LAST record is returned (D21))                 *)
+(*                 "skipT1_last" = skipT1, then only the LAST record is returned (D202))                 *)
 (*   need        : numbers of records for which the subclass does not raise NonMultiplexable          *)
 U(ur, us, ul, br, bs, bl, rr, rl, cap1, lig, ligr, post, need) ==
     [kind |-> "umibc", ur |-> ur, us |-> us, ul |-> ul, br |-> br, bs |-> bs, bl |-> bl, rr |-> rr, rl |-> rl,
@@ -237,12 +237,12 @@ A == [
   SCARC8R2R4      |-> << U(1, 0, 0, 2, 0, 8, 1, 4, -1, -1, "", "none", ANY) >>,
   CHROMC16U12     |-> << U(1, 16, 12, 1, 0, 16, 0, 0, -1, -1, "", "none", ANY) >>,
   DamID2          |-> << aDamID2 >>,
-  DamID2_8bp_noCA |-> << U(1, 0, 3, 1, 3, 8, 0, 0, IF Variant = "impl" THEN 10 ELSE 11, 11, "all", "none", ANY) >>,      \* D20
+  DamID2_8bp_noCA |-> << U(1, 0, 3, 1, 3, 8, 0, 0, IF Variant = "impl" THEN 10 ELSE 11, 11, "all", "none", ANY) >>,      \* D201
   DamAndT         |-> << [aDamID2 EXCEPT !.need = {2}], [U(1, 0, 6, 1, 6, 8, 2, 6, -1, -1, "", "skipT1", {2}) EXCEPT !.need = {2}] >>,
   DamID2_3u4b3u6b |-> << SC(3, 4, 3, 4, "none", ANY) >>,
   DamID2andT_3u4b3u4b |-> << SC(3, 4, 3, 4, "none", {2}), SC(3, 4, 3, 4, "skipT1", {2}) >>,
   DamID2andT_3u4b3u6b |-> << SC(3, 4, 3, 6, "none", {2}), SC(3, 4, 3, 4, "skipT1", {2}),
-                             [SC(3, 4, 3, 6, IF Variant = "impl" THEN "skipT1_last" ELSE "skipT1", {2}) EXCEPT !.cap1 = 14] >>                  \* D21
+                             [SC(3, 4, 3, 6, IF Variant = "impl" THEN "skipT1_last" ELSE "skipT1", {2}) EXCEPT !.cap1 = 14] >>                  \* D202
 ]
 ASSUME DOMAIN A = Strategies /\ \A s \in Strategies : Len(A[s]) = Len(L[s])
 (* preconditions under which UmiBarcodeDemuxMethod.__init__ does not raise NotImplementedError *)
